@@ -1,6 +1,6 @@
 From Coq Require Import NArith ZArith List Bool Lia FinFun.
-From Opcua Require Import Model.RecvBase Model.RecvCrypto Model.RecvMerge Model.RecvFrame
-  Proofs.RecvBaseProofs Proofs.RecvCryptoProofs Proofs.RecvMergeProofs.
+From Opcua Require Import Model.RecvBase Model.RecvCrypto Model.RecvMerge Model.RecvChan Model.RecvFrame
+  Proofs.RecvBaseProofs Proofs.RecvCryptoProofs Proofs.RecvMergeProofs Proofs.RecvChanProofs.
 Import ListNotations.
 Open Scope Z_scope.
 
@@ -29,13 +29,18 @@ Section FrameProofs.
     - exfalso. apply (vd_with_no_panic st a h b Hd (Hl a (or_introl eq_refl)) q E).
   Qed.
 
-  Lemma finish_no_panic (h : chunk_hdr) (r : res bytes) p :
-    (forall q, r <> Panic q) ->
-    bind r (fun d => bind (seq_decode d) (fun x => let '(s, q, rest) := x in Ok (Build_chunk (h_ctype h) s q rest))) <> Panic p.
+  Lemma finish_no_panic (h : chunk_hdr) st' (r : res bytes) p :
+    (forall q, r <> Panic q) -> snd (finish h st' r) <> Panic p.
   Proof.
-    intros Hr. destruct r as [d|e|q]; cbn [bind]; [|discriminate|exfalso; now apply (Hr q)].
+    intros Hr. unfold finish. destruct r as [d|e|q]; cbn [bind]; [|discriminate|exfalso; now apply (Hr q)].
     unfold seq_decode. destruct (read_u32 d) as [[s r1]|]; [|discriminate].
-    destruct (read_u32 r1) as [[q r2]|]; discriminate.
+    destruct (read_u32 r1) as [[q r2]|]; [|discriminate]. destruct (seq_ok (f_last st') s); discriminate.
+  Qed.
+
+  Lemma finish_state h st' r : fst (finish h st' r) = st' \/ exists n, fst (finish h st' r) = with_last st' n.
+  Proof.
+    unfold finish. destruct (bind r seq_decode) as [[[s q] rest]|e|p]; [|now left|now left].
+    destruct (seq_ok (f_last st') s); [right; eexists; reflexivity|now left].
   Qed.
 
   (* readChunk never panics, whatever the frame, in every state whose algorithms are in place *)
@@ -49,19 +54,25 @@ Section FrameProofs.
     - destruct (f_opening st) as [oa|] eqn:Eo; [|discriminate].
       destruct (asym_fields b) as [[uri cert]|]; [|discriminate].
       destruct (uri_none uri) eqn:Eu.
-      + cbn [snd]. apply finish_no_panic. intros q.
+      + apply finish_no_panic. intros q.
         apply vd_with_no_panic; [exact Hd|]. now apply Hopen.
       + destruct (asym_for uri cert) as [al|] eqn:Ea; [|discriminate].
-        cbn [snd]. apply finish_no_panic. intros q. apply vd_with_no_panic; [exact Hd|]. cbn. now apply Hasym with uri cert.
+        apply finish_no_panic. intros q. apply vd_with_no_panic; [exact Hd|]. cbn. now apply Hasym with uri cert.
     - destruct (bytes_eqb (h_type h) MT_CLO); [discriminate|].
       destruct (rev (find_insts st (h_chan h))) as [|a l] eqn:El; [discriminate|].
-      cbn [snd]. apply finish_no_panic. intros q. apply try_insts_no_panic; [exact Hd| |discriminate].
+      apply finish_no_panic. intros q. apply try_insts_no_panic; [exact Hd| |discriminate].
       intros a' Hin. rewrite <- El in Hin. apply in_rev in Hin.
       unfold find_insts in Hin. destruct (find (fun kv => (fst kv =? h_chan h)%N) (f_insts st)) as [[c l']|] eqn:Ef; [|destruct Hin].
       apply find_some in Ef. destruct Ef as [Ef _]. now apply (Hinst c l' a').
   Qed.
 
   (* states stay ok: readChunk only replaces the opening instance's algorithm by one the oracle returned *)
+  Lemma state_ok_with_last st n : state_ok asym_for st -> state_ok asym_for (with_last st n).
+  Proof. intros (H1 & H2 & H3 & H4). repeat split; assumption. Qed.
+
+  Lemma finish_state_ok h st' r : state_ok asym_for st' -> state_ok asym_for (fst (finish h st' r)).
+  Proof. intros H. destruct (finish_state h st' r) as [->|[n ->]]; [exact H|now apply state_ok_with_last]. Qed.
+
   Theorem read_frame_state_ok st b : state_ok asym_for st -> state_ok asym_for (fst (read_frame uri_none asym_for true st b)).
   Proof.
     intros Hok. pose proof Hok as (Hcap & Hinst & Hopen & Hasym). unfold read_frame.
@@ -71,13 +82,13 @@ Section FrameProofs.
     - destruct (f_opening st) as [oa|] eqn:Eo; [|exact Hok].
       destruct (asym_fields b) as [[uri cert]|]; [|exact Hok].
       destruct (uri_none uri) eqn:Eu.
-      + cbn [fst]. repeat split; cbn [f_cap f_insts f_opening f_mode]; try assumption.
+      + apply finish_state_ok. repeat split; cbn [f_cap f_insts f_opening f_mode]; assumption.
       + destruct (asym_for uri cert) as [al|] eqn:Ea.
-        * cbn [fst]. repeat split; cbn [f_cap f_insts f_opening f_mode]; try assumption.
+        * apply finish_state_ok. repeat split; cbn [f_cap f_insts f_opening f_mode]; try assumption.
           intros oa' [= <-]. cbn. now apply Hasym with uri cert.
-        * cbn [fst]. repeat split; cbn [f_cap f_insts f_opening f_mode]; try assumption.
+        * cbn [fst]. repeat split; cbn [f_cap f_insts f_opening f_mode]; assumption.
     - destruct (bytes_eqb (h_type h) MT_CLO); [exact Hok|].
-      destruct (rev (find_insts st (h_chan h))); exact Hok.
+      destruct (rev (find_insts st (h_chan h))); [exact Hok|]. now apply finish_state_ok.
   Qed.
 End FrameProofs.
 
@@ -188,10 +199,18 @@ Section Secured.
     - discriminate.
   Qed.
 
-  Lemma finish_ok (h : chunk_hdr) (r : res bytes) c :
-    bind r (fun d => bind (seq_decode d) (fun x => let '(s, q, rest) := x in Ok (Build_chunk (h_ctype h) s q rest))) = Ok c ->
-    exists d, r = Ok d.
-  Proof. destruct r as [d|e|p]; cbn [bind]; [eauto|discriminate|discriminate]. Qed.
+  Lemma finish_ok (h : chunk_hdr) st' (r : res bytes) c : snd (finish h st' r) = Ok c -> exists d, r = Ok d.
+  Proof.
+    unfold finish. destruct r as [d|e|p]; cbn [bind]; [eauto|discriminate|discriminate].
+  Qed.
+
+  (* what is handed on passed the sequence check against the channel's remembered number *)
+  Lemma finish_seq h st' r c : snd (finish h st' r) = Ok c ->
+    seq_ok (f_last st') (ck_seq c) = true /\ f_last (fst (finish h st' r)) = Some (ck_seq c).
+  Proof.
+    unfold finish. destruct (bind r seq_decode) as [[[s q] rest]|e|p]; [|discriminate|discriminate].
+    destruct (seq_ok (f_last st') s) eqn:E; [|discriminate]. cbn [snd fst]. intros [= <-]. cbn. auto.
+  Qed.
 
   (* where the verifying algorithm comes from *)
   Definition candidate (st : fstate) (b : bytes) (al : algo) : Prop :=
@@ -208,16 +227,16 @@ Section Secured.
     - destruct (f_opening st) as [oa|] eqn:Eo; [|discriminate].
       destruct (asym_fields b) as [[uri cert]|]; [|discriminate].
       destruct (uri_none uri) eqn:Eu.
-      + cbn [snd]. intros H. apply finish_ok in H. destruct H as [d H].
+      + intros H. apply finish_ok in H. destruct H as [d H].
         apply vd_with_secured in H; [|exact Hm]. destruct H as (al & -> & Hv).
         exists h, al, true, d. split; [reflexivity|]. split; [right; left; exact Eo | exact Hv].
       + destruct (asym_for uri cert) as [al|] eqn:Ea; [|discriminate].
-        cbn [snd]. intros H. apply finish_ok in H. destruct H as [d H].
+        intros H. apply finish_ok in H. destruct H as [d H].
         apply vd_with_secured in H; [|exact Hm]. destruct H as (al' & [= <-] & Hv).
         exists h, al, false, d. split; [reflexivity|]. split; [right; right; eauto | exact Hv].
     - destruct (bytes_eqb (h_type h) MT_CLO); [discriminate|].
       destruct (rev (find_insts st (h_chan h))) as [|a0 l0] eqn:El; [discriminate|].
-      cbn [snd]. intros H. apply finish_ok in H. destruct H as [d H].
+      intros H. apply finish_ok in H. destruct H as [d H].
       apply try_insts_ok in H; [|discriminate]. destruct H as (a & Hin & H).
       apply vd_with_secured in H; [|exact Hm]. destruct H as (al & -> & Hv).
       exists h, al, (f_pnone st), d. split; [reflexivity|]. split; [|exact Hv].
@@ -227,12 +246,62 @@ Section Secured.
   Qed.
 
   (* readChunk never changes the channel's mode *)
+  Lemma finish_mode h st' r : f_mode (fst (finish h st' r)) = f_mode st'.
+  Proof. destruct (finish_state h st' r) as [->|[n ->]]; reflexivity. Qed.
+
   Lemma read_frame_mode st b : f_mode (fst (read_frame uri_none asym_for true st b)) = f_mode st.
   Proof.
     unfold read_frame. destruct (f_cap st <? 12); [reflexivity|]. destruct (chunk_decode b) as [h|]; [|reflexivity].
     destruct (bytes_eqb (h_type h) MT_OPN).
     - destruct (f_opening st); [|reflexivity]. destruct (asym_fields b) as [[uri cert]|]; [|reflexivity].
-      destruct (uri_none uri); [reflexivity|]. destruct (asym_for uri cert); reflexivity.
-    - destruct (bytes_eqb (h_type h) MT_CLO); [reflexivity|]. destruct (rev (find_insts st (h_chan h))); reflexivity.
+      destruct (uri_none uri); [now rewrite finish_mode|]. destruct (asym_for uri cert); [now rewrite finish_mode|reflexivity].
+    - destruct (bytes_eqb (h_type h) MT_CLO); [reflexivity|]. destruct (rev (find_insts st (h_chan h))); [reflexivity|now rewrite finish_mode].
   Qed.
 End Secured.
+
+(* ---- the sequence check at frame level ---- *)
+Section FrameSeq.
+  Variable uri_none : bytes -> bool.
+  Variable asym_for : bytes -> bytes -> option algo.
+
+  Definition seq_post (last : option N) (x : fstate * res chunk) : Prop :=
+    match snd x with
+    | Ok c => seq_ok last (ck_seq c) = true /\ f_last (fst x) = Some (ck_seq c)
+    | _ => f_last (fst x) = last
+    end.
+
+  Lemma finish_seq_post h st' r : seq_post (f_last st') (finish h st' r).
+  Proof.
+    unfold seq_post, finish. destruct (bind r seq_decode) as [[[s q] rest]|e|p]; cbn [snd fst]; try reflexivity.
+    destruct (seq_ok (f_last st') s) eqn:E; cbn [snd fst]; [|reflexivity]. cbn. auto.
+  Qed.
+
+  Lemma read_frame_seq_post g st b : seq_post (f_last st) (read_frame uri_none asym_for g st b).
+  Proof.
+    unfold read_frame. destruct (f_cap st <? 12); [reflexivity|]. destruct (chunk_decode b) as [h|]; [|reflexivity].
+    destruct (bytes_eqb (h_type h) MT_OPN).
+    - destruct (f_opening st); [|reflexivity]. destruct (asym_fields b) as [[uri cert]|]; [|reflexivity].
+      destruct (uri_none uri); [exact (finish_seq_post _ _ _)|].
+      destruct (asym_for uri cert) as [al|]; [|reflexivity].
+      exact (finish_seq_post _ _ _).
+    - destruct (bytes_eqb (h_type h) MT_CLO); [reflexivity|]. destruct (rev (find_insts st (h_chan h))); [reflexivity|].
+      exact (finish_seq_post _ _ _).
+  Qed.
+
+  Fixpoint frame_seqs (st : fstate) (bs : list bytes) : list N :=
+    match bs with
+    | [] => []
+    | b :: r => let x := read_frame uri_none asym_for true st b in
+                match snd x with Ok c => ck_seq c :: frame_seqs (fst x) r | _ => frame_seqs (fst x) r end
+    end.
+
+  Lemma frame_seqs_incr bs : forall st, incr_from (f_last st) (frame_seqs st bs).
+  Proof.
+    induction bs as [|b r IH]; intros st; cbn [frame_seqs]; [exact I|].
+    pose proof (read_frame_seq_post true st b) as H. unfold seq_post in H.
+    destruct (snd (read_frame uri_none asym_for true st b)) as [c|e|p].
+    - destruct H as [H1 H2]. cbn [incr_from]. split; [exact H1|]. rewrite <- H2. apply IH.
+    - rewrite <- H. apply IH.
+    - rewrite <- H. apply IH.
+  Qed.
+End FrameSeq.
